@@ -148,6 +148,17 @@ pub fn run_plan<T: HCfg>(plan: &Value, detail: u8, emit: &mut dyn FnMut(&Value))
     let mut cnt_all: std::collections::HashMap<(Addr, Addr), u64> = Default::default();
     let mut cnt_run: std::collections::HashMap<(Addr, Addr), u64> = Default::default();
     let mut faults_hit = 0u64;
+    // C15: a peer skips `ticks` of its ticks once it has reached `at_frame` (it falls behind by that much)
+    let holds: Vec<(usize, i32, u64)> = plan
+        .get("holds")
+        .and_then(|v| v.as_array())
+        .map(|a| {
+            a.iter()
+                .map(|k| (pu(k, "p", 0) as usize, pu(k, "at_frame", 0) as i32, pu(k, "ticks", 0)))
+                .collect()
+        })
+        .unwrap_or_default();
+    let mut holds_done = vec![false; holds.len()];
     let mut kills_done = vec![false; kills.len()];
     let mut discs_done = vec![false; discs.len()];
 
@@ -431,6 +442,12 @@ pub fn run_plan<T: HCfg>(plan: &Value, detail: u8, emit: &mut dyn FnMut(&Value))
             }
             let j = if jitter > 0 { rng.gen_range(0..=jitter) } else { 0 };
             next_tick[p] = now + periods[p] + j;
+            for (i, (hp, at, ticks)) in holds.iter().enumerate() {
+                if !holds_done[i] && *hp == p && cur_of(&w, p) >= *at {
+                    holds_done[i] = true;
+                    next_tick[p] += ticks * periods[p];
+                }
+            }
             if p_pause > 0.0 && rng.gen::<f64>() < p_pause {
                 next_tick[p] += rng.gen_range(0..=pause_ms);
             }
